@@ -3,6 +3,7 @@
 import argparse
 import glob
 import inspect
+import locale
 import logging
 import os
 import sys
@@ -924,8 +925,13 @@ class ArgumentParser(ParserDeprecations, ActionsContainer, ArgumentLinking, argp
         path_fc = Path(path, mode="fc")
         check_overwrite(path_fc)
 
+        def check_encodable(content):
+            # what the locale's encoding cannot represent has to fail before a file is opened (and thereby emptied)
+            content.encode(locale.getpreferredencoding(False))
+
         if not multifile:
             cfg_str = self.dump(cfg, **dump_kwargs)  # type: ignore[arg-type]
+            check_encodable(cfg_str)
             with open(path_fc.absolute, "w") as f:
                 f.write(cfg_str)
 
@@ -971,6 +977,8 @@ class ArgumentParser(ParserDeprecations, ActionsContainer, ArgumentLinking, argp
             repeated = sorted({d for d in destinations if destinations.count(d) > 1})
             if repeated:
                 raise ValueError(f"Unable to save, more than one file would be written to: {', '.join(repeated)}")
+            for _, content in pending_writes:
+                check_encodable(content)
             for file_path, content in pending_writes:
                 with open(file_path, "w") as f:
                     f.write(content)
